@@ -814,6 +814,10 @@ func (w *W) stdAttr(a *scen.Arg) logslog.Attr {
 	case "dur":
 		return logslog.Duration(a.Key, time.Duration(a.I))
 	case "time":
+		if a.S != "" {
+			// I = Unix nanoseconds, S = zone
+			return logslog.Time(a.Key, time.Unix(0, a.I).In(zoneOf(a.S)))
+		}
 		return logslog.Time(a.Key, time.Unix(a.I, 0).UTC())
 	}
 	return logslog.Any(a.Key, w.value(a))
